@@ -42,7 +42,7 @@ View == <<cfg, par, trg, subs, cbs, wgs, lvl, att, life>>
 MCView == <<View, runs, cust>>
 
 Bd(nm, nc, nw, nl) == [nm |-> nm, nc |-> nc, nw |-> nw, nl |-> nl]
-B == CASE Scope = "lts" -> Bd(2, 2, 1, 2) [] Scope = "lts2" -> Bd(3, 2, 1, 2) [] Scope = "mc" -> Bd(3, 2, 1, 2)
+B == CASE Scope = "lts" -> Bd(2, 2, 1, 2) [] Scope = "lts2" -> Bd(3, 2, 1, 2) [] Scope = "mc" -> Bd(2, 2, 1, 1)
        [] Scope = "thorough" -> Bd(3, 3, 2, 2) [] Scope = "trace" -> Bd(4, 8, 3, 3)
 Cfgs == [nm : {B.nm}, nc : {B.nc}, nw : {B.nw}, cs : IF Scope = "lts" THEN {TRUE} ELSE BOOLEAN]
 Wide == Scope \notin {"lts", "lts2"}
